@@ -122,6 +122,42 @@ def held_route_cases(tier, rng):
         variants = equivalent_routes(rng, logical, [], each_c)
         yield ('(rmulti [%s])' % ' '.join(routed_scenario([(a, routes)], steps) for _, routes in variants), 'routes-created-while-held')
 
+def repeated_input_cases(tier, rng):
+    """the same input bound more than once in one list: every occurrence is a binding of its own (with Cumulative
+    accumulation they add up), whatever the route - tuple, repeated calls, slice, Vec, array"""
+    for _ in range(30 if tier == 'thorough' else 8):
+        n = rng.randint(2, 4)
+        ks = [rng.choice([0, 1, 2]) for _ in range(n - 1)]
+        ks.insert(rng.randrange(n), rng.choice(ks))            # at least one repeat
+        inputs = [key(k) if rng.random() < .8 else rng.choice([mbutton(0), paxis(0)]) for k in ks]
+        logical = [(i, [], []) for i in inputs]
+        a = aid(rng.choice([1, 2, 3]), 0, False, False)        # Cumulative, numeric output
+        steps = rand_frames(rng, rng.randint(5, 8), keys=(0, 1, 2))
+        variants = _equivalent_routes(rng, logical, [])
+        yield ('(rmulti [%s])' % ' '.join(routed_scenario([(a, routes)], steps) for _, routes in variants), 'repeated-inputs-x%d' % len(variants))
+
+def held_preset_cases(tier, rng):
+    """presets against their hand-written expansion on contexts created (or rebuilt) while sticks are deflected / keys are
+    down: the bindings a preset produces start out ignored like any other binding"""
+    def handwritten(r):
+        return [r_single(i, m, c) for i, m, c in denote(r)]
+    for _ in range(24 if tier == 'thorough' else 8):
+        kind = rng.choice(['stick-left', 'stick-right', 'cardinal', 'bidir', 'dpad'])
+        if kind.startswith('stick'): r = r_stick(kind == 'stick-left')
+        elif kind == 'cardinal': r = ('cardinal', r_raw(key(0)), r_raw(key(1)), r_raw(key(2)), r_raw(key(3)))
+        elif kind == 'bidir': r = ('bidir', r_raw(key(0)), r_raw(paxis(1)))
+        else: r = ('dpad',)
+        def rnd_raw():
+            return raw(keys=[k for k in range(4) if rng.random() < .5],
+                       pads=[pad(0, [b_ for b_ in range(4, 8) if rng.random() < .4], [(a_, rng.choice([F(0), F(1, 2), F(-1), F(1, 4)])) for a_ in range(4)])])
+        how = rng.choice(['insert', 'rebuild'])
+        held = rnd_raw()
+        steps = [sop(spawn(0, [0] if how == 'rebuild' else [])), frame(raw(pads=[pad(0)])), frame(held), sop(insert(0, 0) if how == 'insert' else REBUILD), frame(held), frame(held)]
+        for _ in range(rng.randint(4, 7)):
+            steps.append(frame(rnd_raw() if rng.random() < .8 else raw(pads=[pad(0)])))
+        a = aid(rng.choice([2, 2, 3, 1]), 0, False, rng.random() < .3)
+        yield ('(rmulti [%s %s])' % (routed_scenario([(a, [r])], steps), routed_scenario([(a, handwritten(r))], steps)), 'presets-created-while-held')
+
 def rand_frames(rng, L, keys=(0, 1, 2, 3)):
     steps = [sop(spawn(0, [0])), frame(raw(pads=[pad(0)]))]
     for _ in range(L):
@@ -157,6 +193,10 @@ def _cases(tier, rng):
         variants = equivalent_routes(rng, logical, each, each_c)
         yield ('(rmulti [%s])' % ' '.join(routed_scenario([(a, routes)], steps) for _, routes in variants), 'routes-x%d' % len(variants))
     for x in held_route_cases(tier, rng):
+        yield x
+    for x in repeated_input_cases(tier, rng):
+        yield x
+    for x in held_preset_cases(tier, rng):
         yield x
     # binding an action a second time extends it in place: P (consuming), Q (same key, listens), then P again with one more
     # input; whether Q sees the key depends on P keeping its place in the evaluation order
@@ -248,7 +288,7 @@ STAGES = [dict(name='routes', mode='app', coq='Check.C19m', noshrink=True, cases
                exhaustive={'thorough': False, 'quick': False},
                rule='(a) for each of 25 (quick) / 120 (thorough) generated logical binding sequences of 1-4 inputs (with own scripted modifiers/conditions and 0-2 modifiers attached to every element), the action is '
                     'built through every route of the menu that denotes it - repeated to() calls, flat tuple, nested tuples, mixed calls, with_modifiers_each over tuples, slices, &Vec, arrays, tuples of slices - all through '
-                    'the crate\'s own InputBindSet impls, and run on the same random script; every trace must equal the model\'s run of the logical sequence. with_conditions_each (once, twice, combined with with_modifiers_each) over elements that already carry conditions; an action bound, others bound, then the first bound again with one more input while a later action listens on its consumed key; routes compared on contexts created while one of the inputs is held. (b) Cardinal built from four arbitrary distinct keys in every '
+                    'the crate\'s own InputBindSet impls, and run on the same random script; every trace must equal the model\'s run of the logical sequence. with_conditions_each (once, twice, combined with with_modifiers_each) over elements that already carry conditions; an action bound, others bound, then the first bound again with one more input while a later action listens on its consumed key; routes compared on contexts created while one of the inputs is held; lists in which the same input occurs more than once (every occurrence counts); presets against their hand-written expansion on contexts created or rebuilt while sticks are deflected / keys are down. (b) Cardinal built from four arbitrary distinct keys in every '
                     '(quick: every 4th) assignment, from gamepad buttons, from two-key Vecs per direction, on all output types; Bidirectional; both sticks; the built-in WASD / arrow / d-pad sets; every subset of directions pressed. (c) Cardinal and Bidirectional whose fields are decorated bindings (own modifiers / conditions), *_each wrappers over slices and tuples, mouse wheel / motion or swizzled keys (two-dimensional values on the negative side), each compared with the hand-written sequence of the documentation. '
                     'non-trivial = some action fires; distinct = distinct case text')]
 CLAUSES = {1: 'internal: a route of the generator does not denote the logical binding sequence of the case (Model/Bind.denote)', 2: 'a preset does not match the compass: expected (east - west, north - south) / (positive - negative)', 3: 'two construction routes that denote the same binding sequence (or binding an action once vs. twice) behave differently',
